@@ -17,10 +17,10 @@ open HailVerif.TypeStr HailVerif.Values HailVerif.ValueJson
 unchanged code (`json_round_trips_refuted`); `fromJson_toJson_partial` is what does hold. -/
 def JsonRoundTrips : Prop := ∀ t v, WF t → HasType t v → roundTrip t v = some (cOrder v)
 
-/-- **What holds**: the round trip is the identity for every type and every well-typed value — missing values at every level,
-`nan`/`±inf`, calls, loci, intervals, sets, dicts, tuples, nested structs, numeric n-d arrays in either memory order — provided
-(`JsonOK`) no dict holds a missing key or value of a type other than int32/int64/bool/str and every n-d array has a numeric
-element type.  Missing for the full statement: exactly those two classes. -/
+/-- **What holds**: the round trip is the identity for every type and every well-typed value — missing values at every level
+(dict keys and values included, since /repo commit 1824f18d5), `nan`/`±inf`, calls, loci, intervals, sets, dicts, tuples, nested
+structs, numeric n-d arrays in either memory order — provided (`JsonOK`) every n-d array has a numeric element type.  Missing
+for the full statement: exactly that class. -/
 theorem fromJson_toJson_partial (t : HType) (v : Value) (hwf : WF t) (ht : HasType t v) (hok : JsonOK t v) :
     roundTrip t v = some (cOrder v) := by
   obtain ⟨j, h1, h2⟩ := na_of_conv t (conv t hwf) v ht hok
@@ -33,18 +33,35 @@ theorem toJson_ne_null (t : HType) (v : Value) (hwf : WF t) (hna : v ≠ .na) (h
   obtain ⟨j, h1, h2, _⟩ := conv t hwf v hna ht hok
   exact ⟨j, h1, h2⟩
 
-/-! ## the two classes the full statement fails on (witnesses replayed on the real methods by `harness/props/c32.py`) -/
+/-! ## dicts with missing keys / values: repaired by /repo commit 1824f18d5 (`tdict._convert_to_json` now uses the `_na` variants) -/
 
-/-- class 1, loud: `{'': None} : dict<str, float64>` — `tdict._convert_to_json` calls `_convert_to_json(None)` and
-`math.isfinite(None)` raises -/
-theorem dict_missing_value_raises :
-    roundTrip (.dict .str .float64) (.dict [(.str [], .na)]) = none := by rfl
+/-- `{'': None} : dict<str, float64>` round-trips (it used to raise `TypeError`) -/
+theorem dict_missing_value_roundtrips :
+    roundTrip (.dict .str .float64) (.dict [(.str [], .na)]) = some (.dict [(.str [], .na)]) := by rfl
 
-/-- class 1, silent: `{None: 1} : dict<struct{}, int32>` — the missing key becomes `{}` and comes back as `Struct()` -/
-theorem dict_missing_key_changed :
-    roundTrip (.dict (.struct []) .int32) (.dict [(.na, .int 1)]) = some (.dict [(.struct [], .int 1)]) := by rfl
+/-- `{None: 1} : dict<struct{}, int32>` round-trips (the missing key used to come back as `Struct()`) -/
+theorem dict_missing_key_roundtrips :
+    roundTrip (.dict (.struct []) .int32) (.dict [(.na, .int 1)]) = some (.dict [(.na, .int 1)]) := by rfl
 
-/-- class 2: a 0-dimensional `ndarray<str>` — written as `{"shape": [], "data": [""]}` and refused by `_convert_from_json` -/
+/-- the OLD entry conversion (`_convert_to_json` without the `None` check), kept to document the repaired defect:
+a missing float64 value raised … -/
+theorem old_dict_missing_value_raised :
+    dictEntryToJsonOld (toJson .str) (toJson .float64) (.str [], .na) = none := by rfl
+
+/-- … and a missing key of type `struct{}` was silently written as `{}`, which reads back as `Struct()`, not `None` -/
+theorem old_dict_missing_key_changed :
+    dictEntryToJsonOld (toJson (.struct [])) (toJson .int32) (.na, .int 1) =
+      some (.obj [(cp% "key", .obj []), (cp% "value", .num 1)]) ∧
+    fromJsonNa (.struct []) (.obj []) = some (.struct []) := ⟨rfl, rfl⟩
+
+/-- old and new entry conversions agree whenever neither the key nor the value is missing -/
+theorem old_entry_eq_new (convK convV : Value → Option Json) (a b : Value) (ha : a ≠ .na) (hb : b ≠ .na) :
+    dictEntryToJsonOld convK convV (a, b) = dictEntryToJson convK convV (a, b) := by
+  cases a <;> cases b <;> first | exact absurd rfl ha | exact absurd rfl hb | rfl
+
+/-! ## the class the full statement still fails on (witness replayed on the real methods by `harness/props/c32.py`) -/
+
+/-- a 0-dimensional `ndarray<str>` — written as `{"shape": [], "data": [""]}` and refused by `_convert_from_json` -/
 theorem ndarray_non_numeric_raises :
     toJsonNa (.ndarray .str 0) (.nd [] [.str []] false) =
       some (.obj [(cp% "shape", .arr []), (cp% "data", .arr [.str []])]) ∧
@@ -52,22 +69,23 @@ theorem ndarray_non_numeric_raises :
 
 theorem json_round_trips_refuted : ¬ JsonRoundTrips := by
   intro h
-  have := h (.dict .str .float64) (.dict [(.str [], .na)]) (by simp [WF])
+  have := h (.ndarray .str 0) (.nd [] [.str []] false) (by simp [WF])
     (by simp [HasType, ScalarStr])
-  rw [dict_missing_value_raises] at this
+  rw [ndarray_non_numeric_raises.2] at this
   cases this
 
 /-! ## Non-vacuity -/
 
 /-- a value exercising every class: NaN, ±inf, -0.0, a missing array element, every call shape as dict keys, a missing set
-element, an interval with a missing end point, an F-ordered float32 matrix, missing primitive dict key and value -/
+element, a missing dict value of set type and a missing call key, an interval with a missing end point, an F-ordered float32
+matrix, missing primitive dict key and value -/
 def sampleType : HType :=
   .struct [(cp% "a", .array .float64), (cp% "x y", .dict .call (.set (.locus (cp% "GRCh37")))),
     ([], .tuple [.interval .int32, .ndarray .float32 2, .int64]), (cp% "d", .dict .int32 .str)]
 
 def sampleValue : Value :=
   .struct [.arr [.flt .nan, .flt .inf, .flt .ninf, .flt (.fin 9223372036854775808), .na, .flt (.fin 1)],
-    .dict [(.call [] true, .set [.locus (cp% "X") 1, .na]), (.call [1, 2] false, .set [.na]), (.call [2, 1] true, .set [])],
+    .dict [(.call [] true, .set [.locus (cp% "X") 1, .na]), (.call [1, 2] false, .na), (.na, .set [])],
     .tup [.interval .na (.int 2147483647) true true,
       .nd [2, 3] [.flt (.fin 0), .flt (.fin 1065353216), .flt .nan, .flt .inf, .flt (.fin 3212836864), .flt (.fin 1073741824)] true,
       .int (-9223372036854775808)],
@@ -77,7 +95,7 @@ example : WF sampleType := by simp [sampleType, WF, WFFields, WFTypes, ValidStr]
 example : HasType sampleType sampleValue := by
   simp [sampleType, sampleValue, HasType, HasTypeFields, HasTypeTuple, Flt.Valid64, Flt.Valid32, ScalarStr]
 example : JsonOK sampleType sampleValue := by
-  simp [sampleType, sampleValue, JsonOK, JsonOKFields, JsonOKTuple, primNone, isNumeric]
+  simp [sampleType, sampleValue, JsonOK, JsonOKFields, JsonOKTuple, isNumeric]
 -- what the theorem says about it, computed: equal up to the memory order of the matrix
 example : roundTrip sampleType sampleValue = some (cOrder sampleValue) := by rfl
 -- the wire form of a float, a missing value and a phased call
